@@ -420,7 +420,7 @@ def run(rng, res, tier, shard, nshards):
                 f2 = check_case(c, Result('C15', 's', 0, 0), count=False)
                 return f2 is not None and f2[0] == key
             small = case
-            if key.startswith('langgraph.overapprox') or key.startswith('build'):
+            if (key.startswith('langgraph.overapprox') or key.startswith('build')) and key not in res.viol_counts and len(res.viol_counts) < 4:
                 small, _ = shrink_case(case, still, max_runs=60)
             res.violation(key, what, {'minimised': small, 'original': case})
     if budget.timed_out():
